@@ -3,11 +3,14 @@
 package consensus
 
 import (
+	"bytes"
+	"crypto/sha256"
 	"fmt"
 
 	dbm "github.com/tendermint/tm-db"
 
 	cfg "github.com/tendermint/tendermint/config"
+	cstypes "github.com/tendermint/tendermint/consensus/types"
 	"github.com/tendermint/tendermint/crypto/ed25519"
 	vp "github.com/tendermint/tendermint/internal/verifvp"
 	"github.com/tendermint/tendermint/libs/log"
@@ -72,4 +75,120 @@ func VP_C17_CoreSurvivesVote() {
 		println("PANIC:", paniced)
 	}
 	vp.Assert(paniced == "", "C17.core.valid-vote-message-never-panics-the-consensus-routine")
+}
+
+// C17-H3b: a proposal message that passed ValidateBasic, signed by the round's (possibly faulty)
+// proposer: the consensus routine neither panics nor reserves memory for more block parts than a
+// block of the maximum size can have.
+func VP_C17_CoreSurvivesProposal() {
+	cs, keys := vpBareState()
+	cs.handleTimeout(timeoutInfo{Height: vpH, Round: 0, Step: cstypes.RoundStepNewHeight}, cs.RoundState)
+	h := vpH + int64(vp.Choice("proposal-height", 3)) - 1
+	r := vp.Int32("proposal.Round")
+	vp.Assume(vp.And(r >= 0, r <= 2))
+	pol := vp.Int32("proposal.POLRound")
+	vp.Assume(vp.And(pol >= -1, pol <= 3))
+	total := []uint32{1, types.MaxBlockPartsCount, types.MaxBlockPartsCount + 1, 1 << 16}[vp.Choice("part-set-total", 4)]
+	bid := types.BlockID{Hash: tmhashOf("proposed block"), PartSetHeader: types.PartSetHeader{Total: total, Hash: tmhashOf("its parts")}}
+	p := types.NewProposal(h, r, pol, bid)
+	prop := cs.Validators.GetProposer()
+	for _, k := range keys {
+		if string(k.PubKey().Address()) == string(prop.Address) {
+			p.Signature = vp.IdealSig(k.PubKey().Bytes(), types.ProposalSignBytes(vpStepChain, p.ToProto()), true)
+		}
+	}
+	msg := &ProposalMessage{Proposal: p}
+	if msg.ValidateBasic() != nil {
+		return
+	}
+	vp.Reach("valid-message")
+	paniced := ""
+	func() {
+		defer func() {
+			if rec := recover(); rec != nil {
+				paniced = fmt.Sprint(rec)
+			}
+		}()
+		cs.handleMsg(msgInfo{Msg: msg, PeerID: "peer"})
+	}()
+	vp.Assert(paniced == "", "C17.core.valid-proposal-message-never-panics-the-consensus-routine")
+	if cs.ProposalBlockParts != nil {
+		vp.Reach("proposal-accepted?")
+		vp.Assert(cs.ProposalBlockParts.Total() <= types.MaxBlockPartsCount, "C17.core.memory-reserved-for-a-proposal-is-bounded-by-the-maximum-block-size")
+	}
+}
+
+func tmhashOf(s string) []byte {
+	h := sha256.Sum256([]byte(s))
+	return h[:]
+}
+
+// C17-H3c: block part messages that passed ValidateBasic, for a proposal the node accepted (2 parts):
+// any index, round, height; genuine, foreign or inconsistent proof; the routine never panics.
+func VP_C17_CoreSurvivesBlockPart() {
+	cs, keys := vpBareState()
+	cs.handleTimeout(timeoutInfo{Height: vpH, Round: 0, Step: cstypes.RoundStepNewHeight}, cs.RoundState)
+	state := vpGenesisState(keys)
+	// a genuine two-part block and a second two-part block to take foreign parts from
+	mk := func(tag byte) (*types.Block, *types.PartSet) {
+		b, _ := state.MakeBlock(vpH, []types.Tx{bytes.Repeat([]byte{tag}, 40)}, types.NewCommit(0, 0, types.BlockID{}, nil), nil, state.Validators.GetProposer().Address)
+		return b, b.MakePartSet(64)
+	}
+	blockA, partsA := mk(0x51)
+	_, partsB := mk(0x52)
+	vp.Assert(partsA.Total() >= 2 && partsB.Total() >= 2, "C17.core.harness-blocks-have-several-parts")
+	p := types.NewProposal(vpH, 0, -1, types.BlockID{Hash: blockA.Hash(), PartSetHeader: partsA.Header()})
+	prop := cs.Validators.GetProposer()
+	for _, k := range keys {
+		if string(k.PubKey().Address()) == string(prop.Address) {
+			sig, err := k.Sign(types.ProposalSignBytes(vpStepChain, p.ToProto()))
+			if err != nil {
+				panic(err)
+			}
+			p.Signature = sig
+		}
+	}
+	cs.handleMsg(msgInfo{Msg: &ProposalMessage{Proposal: p}, PeerID: "peer"})
+	vp.Assert(cs.ProposalBlockParts != nil && cs.ProposalBlockParts.Total() == partsA.Total(), "C17.core.harness-proposal-accepted")
+	paniced := ""
+	for n := 0; n < 2; n++ {
+		src := partsA
+		if vp.Bool("part-of-another-block") {
+			src = partsB
+		}
+		orig := src.GetPart(vp.Choice("part", 2))
+		part := &types.Part{Index: orig.Index, Bytes: orig.Bytes, Proof: orig.Proof}
+		switch vp.Choice("tamper", 5) {
+		case 1:
+			part.Index = uint32(vp.Choice("claimed-index", 4)) // 0..3: in range or beyond the total
+		case 2:
+			part.Proof.Index = int64(vp.Choice("proof-index", 4))
+		case 3:
+			part.Proof.Total = int64(1 + vp.Choice("proof-total", 4))
+		case 4:
+			part.Bytes = append(append([]byte{}, part.Bytes...), vp.Byte("extra-byte"))
+		}
+		msg := &BlockPartMessage{Height: vpH + int64(vp.Choice("part-height", 2)), Round: vp.Int32("part.Round"), Part: part}
+		vp.Assume(vp.And(msg.Round >= 0, msg.Round <= 2))
+		if msg.ValidateBasic() != nil {
+			continue
+		}
+		vp.Reach("valid-message")
+		func() {
+			defer func() {
+				if rec := recover(); rec != nil {
+					paniced = fmt.Sprint(rec)
+				}
+			}()
+			cs.handleMsg(msgInfo{Msg: msg, PeerID: "peer"})
+		}()
+		if paniced != "" {
+			break
+		}
+	}
+	vp.Assert(paniced == "", "C17.core.valid-block-part-message-never-panics-the-consensus-routine")
+	if cs.ProposalBlock != nil {
+		vp.Reach("block-completed?")
+		vp.Assert(cs.ProposalBlock.HashesTo(blockA.Hash()), "C17.core.only-the-proposed-block-is-assembled-from-parts")
+	}
 }
